@@ -2,6 +2,7 @@ package lakesim
 
 import (
 	"fmt"
+	"regexp"
 	"runtime/debug"
 	"sort"
 	"strings"
@@ -43,7 +44,7 @@ func c08GenProgram(s *kernel.Stream, spec *PoolSpec, keyRange, maxU int) (string
 		dir = " -r"
 	}
 	filt := func() string { return GenPred(s, spec, keyRange, maxU, 1) }
-	switch s.Pick(4, 3, 3, 3, 2, 2, 2, 2, 2, 2, 3, 3, 2, 3, 3, 3, 2) {
+	switch s.Pick(4, 3, 3, 3, 2, 2, 2, 2, 2, 2, 3, 3, 2, 3, 3, 3, 2, 2) {
 	case 0: // pool-key order + filter, then explicit sort on the unique u
 		return fmt.Sprintf("from p1 | %s | sort u", filt()), "ordered"
 	case 1: // plain scan: pool-key order, ties compared as a multiset per key
@@ -75,12 +76,16 @@ func c08GenProgram(s *kernel.Stream, spec *PoolSpec, keyRange, maxU int) (string
 		return fmt.Sprintf("from p1 | cut u | head %d", s.Range(1, 12)), "ordered-if-unique-keys"
 	case 16: // a running count in an expression
 		return "from p1 | put c:=count() | sort u", "ordered"
+	case 17: // collect() through partials, with elements whose encoding is empty
+		return "from p1 | put e:=d>0 ? \"\" : \"x\" | collect(e), count() by d", "multiset-collect"
 	case 12:
 		return "from p1 | avg(d), and(d>0), or(d>2), min(u) by d2:=d%3 | sort d2", "ordered"
 	default:
 		return fmt.Sprintf("from p1 | cut u, %s | sort u | head %d", key, s.Range(1, 30)), "ordered"
 	}
 }
+
+var collectRE = regexp.MustCompile(`collect:\[[^\]]*\]`)
 
 type c08Row struct {
 	Text string
@@ -169,6 +174,23 @@ func c08Compare(e *Env, r *SeqRun, src, order string, par int, ref, got []c08Row
 	a, b := text(ref), text(got)
 	describe := func() string {
 		return fmt.Sprintf("%q at parallelism %d differs from parallelism 1 (%s):\n p=1 (%d rows): %s\n p=%d (%d rows): %s", src, par, order, len(a), clipLines(a, 14), par, len(b), clipLines(b, 14))
+	}
+	if order == "multiset-collect" {
+		// collect() keeps input order, which parallel legs do not define:
+		// compare the collected arrays as multisets.
+		norm := func(rows []string) []string {
+			out := make([]string, len(rows))
+			for i, r := range rows {
+				out[i] = collectRE.ReplaceAllStringFunc(r, func(m string) string {
+					elems := strings.Split(m[len("collect:["):len(m)-1], ",")
+					sort.Strings(elems)
+					return "collect:[" + strings.Join(elems, ",") + "]"
+				})
+			}
+			return out
+		}
+		a, b = norm(a), norm(b)
+		order = "multiset"
 	}
 	switch order {
 	case "ordered-if-unique-keys":
